@@ -125,7 +125,9 @@ def run_one(job):
             out = tempfile.mkdtemp(prefix='verif_mut_out_')
             cenv = dict(os.environ, VERIF_REPO=wt, VERIF_OUT=out, VERIF_NPROC='4')
             res['checks'] = {}
-            for cid in FILE_CHECKS[fname]:
+            allc = ['C%02d' % i for i in range(1, 21)]
+            order = FILE_CHECKS[fname] + ([c for c in allc if c not in FILE_CHECKS[fname]] if os.environ.get('MUTATE_ALL_CHECKS') else [])
+            for cid in order:
                 rc, o = sh('./check %s --tier quick' % cid, cwd=VERIF, env=cenv, timeout=1800)
                 res['checks'][cid] = rc
                 if rc == 1:
@@ -164,7 +166,16 @@ def main():
         wts.append(wt)
     jobs_by_wt = [[] for _ in range(j)]
     n = 0
-    for fname in sorted(files or FILE_CHECKS):
+    recheck = os.environ.get('MUTATE_RECHECK')
+    if recheck:
+        os.environ['MUTATE_ALL_CHECKS'] = '1'
+        for l in open(recheck):
+            r = json.loads(l)
+            if r.get('tests_pass') and not r.get('caught'):
+                jobs_by_wt[n % j].append((r['file'], r['index'], wts[n % j]))
+                n += 1
+        files = []
+    for fname in sorted(files if files is not None else FILE_CHECKS):
         src = open(os.path.join('/repo/src/spectrum', fname)).read()
         c = Collector()
         c.visit(ast.parse(src))
